@@ -186,8 +186,13 @@ func extractSnippets(text string) (snippets []*snippet, err error) {
 
 	// add last
 	if start >= 0 {
+		last := text[start:]
+		if inParenthesis {
+			// unterminated parenthesis: skip the opening one
+			last = text[start+1:]
+		}
 		snippets = append(snippets, &snippet{
-			text:           prepToken(text[start:]),
+			text:           prepToken(last),
 			globalPosition: start + 1,
 		})
 	}
@@ -332,11 +337,11 @@ func parseCondition(firstSnippet *snippet, getSnippet func() (*snippet, error)) 
 	return Where(firstSnippet.text, operator, value.text), nil
 }
 
-var escapeReplacer = regexp.MustCompile(`\\([^\\])`)
+var escapeReplacer = regexp.MustCompile(`(?s)\\(.)`)
 
-// prepToken removes surrounding parenthesis and escape characters.
+// prepToken removes escape characters. Surrounding parenthesis are removed by the caller.
 func prepToken(text string) string {
-	return escapeReplacer.ReplaceAllString(strings.Trim(text, "\""), "$1")
+	return escapeReplacer.ReplaceAllString(text, "$1")
 }
 
 // escapeString correctly escapes a snippet for printing.
